@@ -16,6 +16,8 @@ pub enum Ast {
     Track(String),
     Tag(String),
     Label(String),
+    /// date:[start TO end] with optional (year, month, day) bounds (None = *)
+    Date(Option<(i32, u8, u8)>, Option<(i32, u8, u8)>),
     Not(Box<Ast>),
     And(Vec<Ast>, Vec<bool>), // children, explicit-AND flags between them
     Or(Vec<Ast>),
@@ -28,6 +30,19 @@ pub struct Doc {
     pub track: Option<String>,
     pub tags: Vec<String>,
     pub labels: Vec<String>,
+    #[serde(default)]
+    pub ts: i64,
+}
+
+/// Unix timestamp of midnight UTC of a civil date (days-from-civil algorithm).
+pub fn ymd_to_ts(y: i32, m: u8, d: u8) -> i64 {
+    let y = if m <= 2 { y as i64 - 1 } else { y as i64 };
+    let era = if y >= 0 { y } else { y - 399 } / 400;
+    let yoe = y - era * 400;
+    let mp = (m as i64 + 9) % 12;
+    let doy = (153 * mp + 2) / 5 + d as i64 - 1;
+    let doe = yoe * 365 + yoe / 4 - yoe / 100 + doy;
+    (era * 146_097 + doe - 719_468) * 86_400
 }
 
 #[derive(Debug, Clone, Serialize, Deserialize)]
@@ -44,9 +59,9 @@ const NAMES: &[&str] = &["a.txt", "Report.MD", "x", "deep/path/file"];
 const TRACKS: &[&str] = &["main", "Side", "archive"];
 const TAGS: &[&str] = &["red", "Blue", "green-ish", "t1"];
 
-struct Deco<'a> {
-    d: &'a [u8],
-    i: usize,
+pub struct Deco<'a> {
+    pub d: &'a [u8],
+    pub i: usize,
 }
 impl Deco<'_> {
     fn next(&mut self) -> u8 {
@@ -77,7 +92,7 @@ fn quote_if_needed(v: &str) -> String {
 }
 
 /// prec: 0 = OR level, 1 = AND level, 2 = factor level
-fn print(a: &Ast, prec: u8, d: &mut Deco) -> String {
+pub fn print(a: &Ast, prec: u8, d: &mut Deco) -> String {
     let s = match a {
         Ast::Word(w) => flip_case(w, d.next()),
         Ast::Phrase(p) => format!("\"{}\"", flip_case(p, d.next())),
@@ -86,6 +101,10 @@ fn print(a: &Ast, prec: u8, d: &mut Deco) -> String {
         Ast::Track(v) => format!("track:{}", quote_if_needed(&flip_case(v, d.next()))),
         Ast::Tag(v) => format!("tag:{}", quote_if_needed(&flip_case(v, d.next()))),
         Ast::Label(v) => format!("label:{}", quote_if_needed(&flip_case(v, d.next()))),
+        Ast::Date(a, b) => {
+            let f = |x: &Option<(i32, u8, u8)>| x.map(|(y, m, d)| format!("{y:04}-{m:02}-{d:02}")).unwrap_or_else(|| "*".to_string());
+            format!("date:[{} TO {}]", f(a), f(b))
+        }
         Ast::Not(x) => {
             let kw = if d.next() % 2 == 0 { "NOT" } else { "not" };
             format!("{kw} {}", print(x, 2, d))
@@ -139,7 +158,7 @@ pub fn to_text(c: &Case) -> String {
     print(&c.ast, 0, &mut d)
 }
 
-fn eval(a: &Ast, doc: &Doc, lower: &str) -> bool {
+pub fn eval(a: &Ast, doc: &Doc, lower: &str) -> bool {
     match a {
         Ast::Word(w) => lower.contains(&w.to_ascii_lowercase()),
         Ast::Phrase(p) => lower.contains(&p.to_ascii_lowercase()),
@@ -148,13 +167,16 @@ fn eval(a: &Ast, doc: &Doc, lower: &str) -> bool {
         Ast::Track(v) => doc.track.as_deref().is_some_and(|t| t.eq_ignore_ascii_case(v)),
         Ast::Tag(v) => doc.tags.iter().any(|t| t.eq_ignore_ascii_case(v)),
         Ast::Label(v) => doc.labels.iter().any(|t| t.eq_ignore_ascii_case(v)),
+        Ast::Date(a, b) => {
+            a.map(|(y, m, d)| doc.ts >= ymd_to_ts(y, m, d)).unwrap_or(true) && b.map(|(y, m, d)| doc.ts <= ymd_to_ts(y, m, d)).unwrap_or(true)
+        }
         Ast::Not(x) => !eval(x, doc, lower),
         Ast::And(xs, _) => xs.iter().all(|x| eval(x, doc, lower)),
         Ast::Or(xs) => xs.iter().any(|x| eval(x, doc, lower)),
     }
 }
 
-fn size(a: &Ast) -> (usize, bool, bool, bool) {
+pub fn size(a: &Ast) -> (usize, bool, bool, bool) {
     match a {
         Ast::Not(x) => {
             let (n, a_, o, _) = size(x);
@@ -182,7 +204,7 @@ fn size(a: &Ast) -> (usize, bool, bool, bool) {
 
 pub fn make_frame(doc: &Doc) -> Frame {
     serde_json::from_value(json!({
-        "id": 7, "timestamp": 1700000000i64, "kind": null, "track": doc.track,
+        "id": 7, "timestamp": doc.ts, "kind": null, "track": doc.track,
         "payload_offset": 0, "payload_length": 0, "checksum": vec![0u8; 32],
         "uri": doc.uri, "tags": doc.tags, "labels": doc.labels,
     }))
@@ -260,6 +282,7 @@ fn doc() -> impl Strategy<Value = Doc> {
             track: track.map(|t| t.to_string()),
             tags: tags.into_iter().map(|t| t.to_string()).collect(),
             labels: labels.into_iter().map(|t| t.to_string()).collect(),
+            ts: 0,
         })
 }
 
@@ -274,7 +297,7 @@ fn total_check(c: &StrCase) -> CheckResult {
     match parse_query_text(&c.s) {
         Ok(()) => {
             // a parsed query must also evaluate without panicking
-            let d = Doc { text: "alpha beta".into(), uri: "mv2://docs/a.txt".into(), track: None, tags: vec![], labels: vec![] };
+            let d = Doc { text: "alpha beta".into(), uri: "mv2://docs/a.txt".into(), track: None, tags: vec![], labels: vec![], ts: 0 };
             let _ = query_matches(&c.s, &make_frame(&d), "alpha beta");
         }
         Err(MemvidError::InvalidQuery { .. }) => {}
@@ -329,7 +352,7 @@ pub fn child_parse(path: &str) -> i32 {
     };
     match parse_query_text(&q) {
         Ok(()) => {
-            let d = Doc { text: "a".into(), uri: "mv2://docs/a.txt".into(), track: None, tags: vec![], labels: vec![] };
+            let d = Doc { text: "a".into(), uri: "mv2://docs/a.txt".into(), track: None, tags: vec![], labels: vec![], ts: 0 };
             let _ = query_matches(&q, &make_frame(&d), "a");
             println!("ok");
             0
